@@ -134,19 +134,8 @@ def run(chk):
     r2.require(ok, f"{dp.key}|returns-_predict(df)", dp.where(), "DailyModel.predict must return self._predict(df) unchanged")
 
     # ------------------------------------------------------------------ R06.3
-    gc = chk.repo.func(HOURLY_DATA, "_HourlyData._get_contiguous_datetime")
-    t = unparse(gc.node)
-    r3.require("df.index.min().replace(hour=0, minute=0, second=0, microsecond=0)" in t, f"{gc.key}|starts-00:00", gc.where(), "contiguous index must start at 00:00 of the first supplied day")
-    r3.require("df.index.max().replace(hour=23, minute=0, second=0, microsecond=0)" in t, f"{gc.key}|ends-23:00", gc.where(), "contiguous index must end at 23:00 of the last supplied day")
-    dr = [c for c in calls_in(gc.node) if unparse(c.func) == "pd.date_range"]
-    ok = len(dr) == 1 and const_str(kwarg(dr[0], "freq")) in ("h", "H") and unparse(kwarg(dr[0], "start")) == "earliest_datetime" and unparse(kwarg(dr[0], "end")) == "latest_datetime"
-    r3.require(ok, f"{gc.key}|hourly-range", gc.where(), "contiguous index must be pd.date_range(start=first 00:00, end=last 23:00, freq='h')")
-    r3.require("df = df.reindex(complete_dt)" in t, f"{gc.key}|reindex", gc.where(), "the frame must be reindexed onto the contiguous hourly index")
-    sd = chk.repo.func(HOURLY_DATA, "_HourlyData._set_data")
-    order = [unparse(c.func) for c in calls_in(sd.node) if unparse(c.func) in ("remove_duplicates", "self._get_contiguous_datetime", "self._interpolate")]
-    lines = {unparse(c.func): c.lineno for c in calls_in(sd.node) if unparse(c.func) in ("remove_duplicates", "self._get_contiguous_datetime", "self._interpolate")}
-    r3.require(len(lines) == 3 and lines["remove_duplicates"] < lines["self._get_contiguous_datetime"] < lines["self._interpolate"], f"{sd.key}|order", sd.where(),
-               "_set_data must de-duplicate, then build the contiguous index, then interpolate")
+    from rules.hourlyframe import check_contiguous_index
+    check_contiguous_index(chk, r3)
 
     # ------------------------------------------------------------------ R06.4
     cw = chk.repo.cls(*CALTRACK_WRAPPER)
